@@ -20,10 +20,16 @@ RESULT_FIELDS = ("ret", "outs", "post", "vals", "val", "fwd", "imgs", "toks", "r
                  "terms", "bits", "lines", "support", "chi2m", "c0", "differ", "wpost", "wfwd", "mid", "acq", "ipow", "w", "L")
 
 
+BIG = [False]       # statistical acceptance regions are intervals: there a count is changed by a lot, not by one
+STAT_OPS = ("birthday", "bigbirthday", "fair", "resample", "dist", "marginal", "sampledist", "widesample")
+
+
 def corrupt(v, first=False):
     """change one number (the last one found, or the first one with first=True); returns (changed?, value)"""
     if isinstance(v, bool):
         return True, (not v)
+    if isinstance(v, int) and BIG[0]:
+        return True, v * 7 + 997
     if isinstance(v, int):
         if v == -1:
             return True, 1              # (+1 / -1 outcome records)
@@ -54,14 +60,22 @@ def candidates(v, limit=8):
     """several single-number corruptions of a value: for dictionaries one per (result) key, for lists at the last and at the
     first position"""
     out = []
+    if isinstance(v, dict) and isinstance(v.get("terms"), list) and v["terms"] and isinstance(v["terms"][0], list):
+        # a polynomial value {t, terms: [[wire, re, im, e], ...]}: change a coefficient, a phase, drop a term
+        T = v["terms"]
+        for i in (len(T) - 1, 0):
+            t = T[i]
+            out.append(dict(v, terms=T[:i] + [[t[0], t[1] + 1] + t[2:]] + T[i + 1:]))
+            out.append(dict(v, terms=T[:i] + [[t[0][:-1] + [(t[0][-1] + 1) % 4]] + t[1:]] + T[i + 1:]))
+        out.append(dict(v, terms=T[:-1]))
     if isinstance(v, dict):
         pref = ("fwd", "back", "post", "out", "ret", "outs", "vals", "val", "seq", "bwd")
         for k in sorted(v, key=lambda k: (pref.index(k) if k in pref else 99, k not in RESULT_FIELDS, k)):
             if k in ("ins", "kind", "obs", "pre", "m", "g", "a", "b", "prog", "qs"):
                 continue
-            ok, nv = corrupt(v[k], False)
-            if ok and nv != v[k]:
-                out.append(dict(v, **{k: nv}))
+            for c in candidates(v[k], 3) if isinstance(v[k], (list, dict)) else [corrupt(v[k])[1]]:
+                if c != v[k]:
+                    out.append(dict(v, **{k: c}))
     elif isinstance(v, list) and v and isinstance(v[-1], (dict, list)):
         for i in (len(v) - 1, 0):
             for c in candidates(v[i], 5):
@@ -70,6 +84,13 @@ def candidates(v, limit=8):
         ok, nv = corrupt(v, first)
         if ok and nv != v:
             out.append(nv)
+    if isinstance(v, list) and 0 < len(v) <= 8 and all(isinstance(x, int) and not isinstance(x, bool) for x in v):
+        for i in range(len(v)):                      # short numeric vectors: every position (a dyadic is [numerator, exponent])
+            out.append(v[:i] + [corrupt(v[i])[1]] + v[i + 1:])
+            if BIG[0]:
+                out.append(v[:i] + [0] + v[i + 1:])
+    if isinstance(v, int) and not isinstance(v, bool) and BIG[0]:
+        out.append(0)
     uniq = []
     for c in out:
         if c not in uniq:
@@ -98,11 +119,17 @@ def main(ids):
             for line in open(os.path.join(tdir, f)):
                 r = json.loads(line)
                 key = (r.get("op"), r.get("pkg"))
-                if key not in seen and "exc" not in r and r.get("op") != "refusal":
-                    seen[key] = r
+                ret = r.get("ret")
+                if isinstance(ret, dict) and ret.get("terms") == []:
+                    continue                         # (an empty result has nothing to corrupt)
+                if "exc" not in r and r.get("op") != "refusal" and seen.get((key, "n"), 0) < 40:
+                    seen[key] = r                    # (the 40th record of each kind: the first ones are degenerate inputs)
+                    seen[(key, "n")] = seen.get((key, "n"), 0) + 1
+        seen = {k: v for k, v in seen.items() if isinstance(v, dict)}
         print("== %s: %d operation kinds recorded" % (pid, len(seen)))
         for (op, pkg), rec in sorted(seen.items(), key=str):
             fields = [f for f in RESULT_FIELDS if f in rec]
+            BIG[0] = op in STAT_OPS
             if not fields:
                 print("   %-14s %-6s (no result field to corrupt)" % (op, pkg))
                 continue
@@ -117,7 +144,7 @@ def main(ids):
             tried, field = 0, None
             for f in fields:
                 for nv in candidates(rec[f]):
-                    if tried >= 10:
+                    if tried >= 14:
                         continue
                     tried += 1
                     p1 = os.path.join(wd, "one_corrupt.ndjson")
